@@ -68,6 +68,14 @@ CHECKS = {
         ref="DESIGN.md 6/C15", technique="Lean 4 proof (inductive invariant over all interleavings, bounded-response variant, lockset table) + regenerated source facts + ThreadSanitizer stress runs with trace replay on the model",
         category="proof",
         note="Partial with respect to the C++ memory model: race freedom is a lockset discipline theorem over facts extracted from the headers plus ThreadSanitizer on explored schedules, not a proof against the standard's happens-before; OS scheduler fairness assumed; FIFO/never-two are for one worker as the property states; FreeRTOS/ARM variants not modelled."),
+    "C16": dict(
+        text="Lean proofs about a string-level transliteration of the template engine (Model/Engine): for every pass and every file cut into chunks the pair expander passes everything outside blocks through and replaces each block in place by the expansion of its body (C16_blocks_in_place); the body of a per-state / per-event / per-action / per-guard block is emitted once per element of the model's list, in list order, for no other element, with every name tag replaced by the element's name in the tag's case variant, NUM by the zero-based index and ALPH by the letter of the a..zA..Z cycle, white-space-only lines dropped (C16_once_per_element_in_order with C16_enum, C16_case_variants, C16_counters, C16_letter_cycle); the loader's blank-line filter empties exactly the space-only lines that follow a space-only line (C16_blank_lines); TAB filter idempotent (C16_tab_filter). The string lemmas underneath (what re.findall and str.replace do on tag-structured text) hold for all literals, names and values free of angle brackets. Tied to the code by function-level and template-level differential runs through the public entry points (well-formed and malformed template directories), and every well-formed case is also compared with a token-level reference expander (Model/EngineSpec) - a difference there is a violation.",
+        ref="DESIGN.md 6/C16", technique="Lean 4 proof (string lemmas over tag-structured text, induction over lines/chunks/elements) + model/implementation correspondence at function and template level + reference-expander oracle",
+        note="Partial: nested per-state/event/guard transition blocks with alternative text, action-signature and struct/message blocks and signature/member/documentation/attribute lines are covered by the correspondence and the reference expander, not yet by theorems; hypotheses of the theorems are decidable conditions evaluated on every generated case (evidence: theorem_domain_*). Back-end answers enter as tables; EXTENDS/EXCLUDE, TTT renderers, PyAttr, DATETIME/PLATFORM outside the model."),
+    "C17": dict(
+        text="Lean proofs about the transliterated user-tag pass: on every line every tag on its own becomes its assigned value, else its inline default, else stays as written (C17_usertag_value_default_verbatim with C17_assigned/_default/_verbatim); a conditional block emits exactly the branches whose tag is assigned, in order, the ELSE branch exactly when none was, never a delimiter line, and leaves the automaton outside (C17_if_elseif_else, C17_else_iff); the whole pass over any file of plain lines and blocks (C17_user_pass); two assignments of the same tags differing in the value of one tag t give the same number of lines and equal lines wherever the template line does not mention t (C17_noninterference). Tied to the code as C16, plus every template of a set under all 16 subsets of 4 tags and a direct non-interference check of the shipped templates' own tags on the real output.",
+        ref="DESIGN.md 6/C17", technique="Lean 4 proof (scanner lemmas, automaton invariant by induction over branches and items) + model/implementation correspondence + reference-expander oracle + marker-value non-interference on shipped templates",
+        note="Partial: the FOR clause (lists, counts, user-tag driven, FIRST/LAST/EACH/each/NUM/ALPH) is covered by the correspondence and the reference expander, not yet by theorems. Values rendered with str(); conditional blocks not nested; FOR over a single word / empty value is rejected by the generator and has no meaning by the rules."),
 }
 PENDING = {}
 
